@@ -46,6 +46,7 @@ type job struct {
 
 func main() {
 	run := vr.New("C18", "exploration")
+	defer run.Recover()
 	freepass.MaybeReplay(run)
 	run.Rule("passwords x salt pairs x groups x (a, b) chosen by deterministic upward search in the reference so that A, B and S each take 0, 1 and 2 leading zero bytes (full product of the listed alphabets; the client's ephemeral a is injected through the owned random seam of the public GetInputCheckPassword); every ordered pair of distinct passwords; bad-B menu; empty password; non-trivial = distinct case whose answer was checked by the reference verifier")
 	run.Assume("reference R6 (harness/ref/srpref) implements the verifier side of core.telegram.org/api/srp with its own PBKDF2-HMAC-SHA512", "the client's random draw for a is owned through vrand (dry.RandomBytes call site)")
